@@ -98,7 +98,8 @@ impl ScriptStack for Vec<Vec<u8>> {
     fn push_bool(&mut self, boolean: bool) -> Result<(), InterpreterError> {
         let data = match boolean {
             true => vec![1],
-            false => vec![0],
+            // false is the empty vector (script number zero), not a single zero byte
+            false => vec![],
         };
 
         self.push(data);
